@@ -173,6 +173,8 @@ struct SchedPlan
   std::size_t victim = 0;
   unsigned ownerDelayUs = 0; // owner's reaction delay after its release
   unsigned holdBeforeUs = 0, holdAfterUs = 0;
+  bool preStart = false;     // (sched) every call is issued BEFORE the first start(): the engine accepts the commands
+                             // and executes them once it runs; the harness start()s after all calls returned
   int holdNth = 2;           // which unlock of the I/O thread inside fireConnect is held: 2 = the transport's sync
                              // mutex at the end of its onConnect handler; 1 = the fake engine's own mutex BEFORE the
                              // handler runs (engine->stop() needs it): the fence is set, the callers return
@@ -200,6 +202,7 @@ std::string describe(const SchedPlan &p)
   pbt::Fmt d;
   d << "callers=" << p.callers.size();
   if (p.stop) d << " stop@" << p.stopAtUs << "us";
+  if (p.preStart) d << " calls-before-first-start";
   if (p.perturbSeed) d << " perturb=" << p.perturbSeed;
   if (p.dropOwner || p.trigger)
   {
@@ -526,7 +529,7 @@ void judgeCall(SchedWorld &w, std::size_t ci, const net::ConnectResult &r, std::
   {
     if (sid == okSid) continue;
     auto s = w.eng->session(sid);
-    if (s.closeFiredSeq == 0 && s.closeCalls == 0 && !w.stopIssued.load() && w.eng->isRunning())
+    if (s.closeFiredSeq == 0 && s.closeCalls == 0 && !w.stopIssued.load())
     {
       w.fail("C04/attempt-left-open", who + " returned " + (r.isOk() ? std::string("ok") : std::string(errName(r.error().code))) +
                                         " but session " + std::to_string(sid) + " of this call was neither closed by the engine nor closed by the transport");
@@ -559,7 +562,7 @@ void runSched(pbt::Case &c, const SchedPlan &plan)
   w.eng->setIoThreadId(w.io.id());
   w.glog.install(*w.tr);
   installHooks(w);
-  w.tr->start();
+  if (!plan.preStart) w.tr->start();
   if (plan.perturbSeed && c03_sched_enable)
     w.io.post([s = plan.perturbSeed] { c03_sched_enable(s * 31 + 7); })->waitDone();
 
@@ -588,8 +591,11 @@ void runSched(pbt::Case &c, const SchedPlan &plan)
         auto el = Clock::now() - b;
         bool ci_ = cancelIssued[ci].load();
         judgeCall(w, ci, r, el, timeout, true, ci_);
-        for (auto &f : st.afterReturn) f();
-        st.afterReturn.clear();
+        if (!plan.preStart)
+        {
+          for (auto &f : st.afterReturn) f();
+          st.afterReturn.clear();
+        }
       }
       else
       {
@@ -605,8 +611,11 @@ void runSched(pbt::Case &c, const SchedPlan &plan)
           auto r = w.tr->connectSync("192.0.2.1", 5060, net::TlsMode::None, timeout);
           auto el = Clock::now() - b;
           judgeCall(w, ci, r, el, timeout, false, false);
-          for (auto &f : st.afterReturn) f();
-          st.afterReturn.clear();
+          if (!plan.preStart)
+          {
+            for (auto &f : st.afterReturn) f();
+            st.afterReturn.clear();
+          }
         }
       }
       tlCaller = ~std::size_t(0);
@@ -640,6 +649,17 @@ void runSched(pbt::Case &c, const SchedPlan &plan)
     }
   }
   for (auto &th : threads) th.join();
+  if (plan.preStart)
+  {
+    // the engine runs from here on and executes what was queued: every Connect, and - FIFO behind it - the
+    // Close the transport issued for it (kept in the callers' deferred lists)
+    w.tr->start();
+    for (auto &st : w.cs)
+    {
+      for (auto &f : st.afterReturn) f();
+      st.afterReturn.clear();
+    }
+  }
   w.io.drain();
 
   // sessions handed to a caller are closed by the application now (their global onClose is legitimate)
@@ -704,6 +724,7 @@ void runSched(pbt::Case &c, const SchedPlan &plan)
   if (w.nPlacedInWindow) c.label("event placed in/after the timeout-path close");
   if (w.nLateConnectAfterTimeout) c.label("onConnect landed after the transport's close(sid)");
   if (plan.stop) c.label("stop() raced");
+  if (plan.preStart) c.label("calls before the first start()");
   bool nearExpiry = false;
   for (auto &cp : plan.callers)
     for (auto &a : cp.attempts)
@@ -1024,6 +1045,24 @@ SchedPlan genSched(pbt::Src &src)
   p.stop = src.coin(1, 8);
   p.stopAtUs = static_cast<unsigned>(src.range(0, 3000));
   p.perturbSeed = src.coin(1, 2) ? static_cast<std::uint64_t>(src.range(1, 1 << 20)) : 0;
+  p.preStart = src.coin(1, 10);
+  if (p.preStart)
+  {
+    // nothing can happen before the engine runs: every attempt times out (or is refused synchronously); the
+    // engine executes the queued Connect/Close pairs after start()
+    p.stop = false;
+    for (auto &cp : p.callers)
+    {
+      for (auto &a : cp.attempts)
+      {
+        if (a.outcome != OutSyncRefuse) a.outcome = OutHole;
+        if (a.timeoutMs > 20) a.timeoutMs = 5;
+        a.closeProc = CpAfterReturn;
+      }
+      if (cp.cancellable && cp.totalTimeoutMs > 30) cp.totalTimeoutMs = 30;
+      if (cp.cancellable) cp.cancelAtUs = cp.cancelAtUs % (cp.totalTimeoutMs * 1000 + 500);
+    }
+  }
   return p;
 }
 
@@ -1149,7 +1188,16 @@ struct RawPeers
   std::vector<Conn> conns; // accepted on the accept target
   unsigned rstAccepted = 0;
   std::atomic<bool> quit{false};
+  std::atomic<std::uint64_t> sweeps{0}; // completed accept+read passes of the acceptor thread
   std::thread th;
+
+  /// wait (bounded) until the acceptor has completed two full passes that started after this call:
+  /// every connection that was established before the call has then been accepted and read once
+  void sweep()
+  {
+    std::uint64_t s0 = sweeps.load();
+    for (int i = 0; i < 20000 && sweeps.load() < s0 + 2; ++i) std::this_thread::sleep_for(std::chrono::microseconds(100));
+  }
 
   RawPeers()
   {
@@ -1224,6 +1272,7 @@ struct RawPeers
             break;
         }
       }
+      ++sweeps;
     }
   }
 };
@@ -1241,12 +1290,20 @@ struct RealCaller
 struct RealPlan
 {
   std::vector<RealCaller> callers;
+  int lifecycle = 0; // when the calls are issued: 0 on a running transport, 1 before the first start(),
+                     // 2 after start()+stop() and before the restart. In 1 and 2 the harness start()s the
+                     // transport after every call has returned and issues one harmless later command.
 };
+const char *lcName(int l)
+{
+  static const char *n[] = {"running", "before-first-start", "stopped-before-restart"};
+  return n[l];
+}
 
 std::string describe(const RealPlan &p)
 {
   pbt::Fmt d;
-  d << "real callers=" << p.callers.size();
+  d << "real callers=" << p.callers.size() << " lifecycle=" << lcName(p.lifecycle);
   for (std::size_t i = 0; i < p.callers.size(); ++i)
   {
     auto &c = p.callers[i];
@@ -1275,11 +1332,13 @@ void runReal(pbt::Case &c, const RealPlan &plan)
   net::TransportConfig cfg;
   auto tr = net::Transport::tcp(cfg);
   glog.install(*tr);
-  if (!tr->start().isOk())
+  if (plan.lifecycle != 1 && !tr->start().isOk())
   {
     c.inconclusive("transport did not start");
     return;
   }
+  if (plan.lifecycle == 2) tr->stop();
+  const bool runningDuringCalls = plan.lifecycle == 0;
 
   std::mutex mu;
   std::string failSig, failWhat;
@@ -1331,6 +1390,11 @@ void runReal(pbt::Case &c, const RealPlan &plan)
         if (r.isOk())
         {
           ++nOk;
+          if (!runningDuringCalls)
+          {
+            fail("C04/ok-without-running-engine", who + " returned ok(" + std::to_string(r.value()) + ") on a transport that is not running: no handshake can have completed");
+            return;
+          }
           if (rc.target != TgAccept && rc.target != TgRst)
           {
             fail("C04/ok-for-unreachable-target", who + " returned ok(" + std::to_string(r.value()) + ") although no handshake can complete with this target");
@@ -1352,7 +1416,7 @@ void runReal(pbt::Case &c, const RealPlan &plan)
             fail("C04/indefinite-error", who + " returned an error with code None");
           if (code == TransportError::Cancelled && !(rc.cancellable && cancelIssued[ci].load()))
             fail("C04/cancelled-without-cancel", who + " returned Cancelled although cancel() was never called");
-          if (code == TransportError::ShuttingDown)
+          if (code == TransportError::ShuttingDown && runningDuringCalls)
             fail("C04/indefinite-error", who + " returned ShuttingDown although the transport was running");
         }
         if (el > timeout + kSlack)
@@ -1381,10 +1445,17 @@ void runReal(pbt::Case &c, const RealPlan &plan)
   }
   for (auto &th : threads) th.join();
 
-  // barrier: addListener on a running transport is synchronous, so when it returns the I/O
-  // thread has processed every Connect/Close command the calls above enqueued
+  // calls issued on a transport that was not running: whatever they left queued is executed now
+  if (!runningDuringCalls && !tr->start().isOk())
+  {
+    c.inconclusive("transport did not (re)start");
+    return;
+  }
+  // barrier and "one harmless later command": addListener on a running transport is synchronous, so when
+  // it returns the I/O thread has processed every Connect/Close command the calls above enqueued
   auto lr = tr->addListener("127.0.0.1", 0);
   (void)lr;
+  peers.sweep(); // connections those commands established are now known to the raw peer
 
   // ---- liveness of handed sessions and no connection left behind (raw peer's view)
   unsigned leftOpen = 0, tokensMissing = 0;
@@ -1510,13 +1581,14 @@ void runReal(pbt::Case &c, const RealPlan &plan)
     if ((rc.target == TgAccept || rc.target == TgRst) && rc.timeoutMs <= 2) shortOnLive = true;
   }
   for (int k : kinds) c.label(std::string("target ") + tgName(k));
+  c.label(std::string("lifecycle ") + lcName(plan.lifecycle));
   {
     std::lock_guard<std::mutex> lk(peers.mu);
     if (peers.conns.size() > handed.size()) c.label("raw peer saw a connection of a failed attempt closed");
   }
   if (shortOnLive) c.label("timeout <= 2 ms against a completing target");
   // non-trivial: the completion can fall within ~2 ms of the expiry (short timeout on a live target)
-  if (shortOnLive || nCancelled) c.nontrivial(pbt::hash64(describe(plan)));
+  if (shortOnLive || nCancelled || plan.lifecycle != 0) c.nontrivial(pbt::hash64(describe(plan)));
 }
 
 RealPlan genReal(pbt::Src &src)
@@ -1544,6 +1616,16 @@ RealPlan genReal(pbt::Src &src)
     }
     p.callers.push_back(rc);
   }
+  p.lifecycle = static_cast<int>(src.weighted({7, 2, 1}));
+  if (p.lifecycle != 0)
+    for (auto &rc : p.callers)
+    {
+      // nobody processes commands while the calls run: every call waits its full timeout - keep them short
+      if (rc.timeoutMs > 20) rc.timeoutMs = 20;
+      if (rc.calls > 2) rc.calls = 2;
+      if (rc.target != TgAccept && rc.target != TgRst && rc.target != TgRefuse) rc.target = TgAccept;
+      if (rc.cancellable) rc.cancelAtUs = rc.cancelAtUs % (rc.timeoutMs * 1000 + 500);
+    }
   return p;
 }
 
@@ -1585,6 +1667,33 @@ PBT_REGRESSION(real_fd_reuse_neighbour_survives)
     rc.calls = 40;
     p.callers.push_back(rc);
   }
+  runReal(c, p);
+}
+PBT_REGRESSION(real_prestart_timeout_leaves_nothing_open)
+{
+  // connectSync on a transport that has not been started yet: the Connect is queued, the call times out;
+  // after start() and a later command the queued attempt must not leave a connection open at the peer
+  RealPlan p;
+  p.lifecycle = 1;
+  for (int i = 0; i < 2; ++i)
+  {
+    RealCaller rc;
+    rc.target = TgAccept;
+    rc.timeoutMs = 5;
+    rc.calls = 2;
+    p.callers.push_back(rc);
+  }
+  runReal(c, p);
+}
+PBT_REGRESSION(real_stopped_then_restarted)
+{
+  RealPlan p;
+  p.lifecycle = 2;
+  RealCaller rc;
+  rc.target = TgAccept;
+  rc.timeoutMs = 5;
+  rc.calls = 2;
+  p.callers.push_back(rc);
   runReal(c, p);
 }
 PBT_REGRESSION(real_targets_definite_errors)
@@ -1685,6 +1794,23 @@ PBT_REGRESSION(onconnect_between_fence_and_engine_stop)
   p.holdBeforeUs = 0; // the owner gets through the fence and into engine->stop() in the meantime
   p.holdAfterUs = 800;
   runTeardown(c, p);
+}
+
+PBT_REGRESSION(prestart_timeout_issues_close)
+{
+  // connectSync before the first start(): the engine accepts and queues the Connect; the timed-out call must
+  // still queue the Close behind it, or the attempt is executed after start() and left open
+  SchedPlan p;
+  CallerPlan cp;
+  Attempt a;
+  a.timeoutMs = 1;
+  a.outcome = OutHole;
+  a.closeProc = CpAfterReturn;
+  cp.attempts.push_back(a);
+  cp.attempts.push_back(a);
+  p.callers.push_back(cp);
+  p.preStart = true;
+  runSched(c, p);
 }
 
 PBT_REGRESSION(late_onconnect_inside_timeout_close)
